@@ -303,7 +303,7 @@ def neighbourhood(g, m, v):
 def link_paths(g, m, v):
     """GFA1: the paths every stored link knows of (link.paths) against the P records of the text model that run over the
     link (the dependants the removal of the link will cascade over) -> failure text or None.  Links that share a path
-    step with a parallel link (the step fits both) and links whose text occurs twice are left out."""
+    step with a parallel link (the step fits both) - a stored one or a placeholder - and links whose text occurs twice are left out."""
     if v != "gfa1":
         return None
     gfapy = lib.import_gfapy()
@@ -321,11 +321,17 @@ def link_paths(g, m, v):
     for i, r in enumerate(m.recs):
         if r[0] == "L":
             index.setdefault(H.norm_rec(r, v), []).append(i)
+    def ends(l):
+        f = str(l).split("\t")
+        return tuple(sorted([(f[1], "R" if f[2] == "+" else "L"), (f[3], "L" if f[4] == "+" else "R")]))
+    # a placeholder link (the link a path asked for with an overlap no stored link has) joins the same segment ends as a
+    # stored link: a path step that leaves the overlap open fits both, which of them it is bound to is not pinned down
+    beside_placeholder = set(ends(l) for l in g.lines if l.record_type == "L" and l.virtual)
     for l in g.lines:
         if l.record_type != "L" or l.virtual:
             continue
         ix = index.get(H.norm_text(str(l), v), [])
-        if len(ix) != 1 or ix[0] in shared:
+        if len(ix) != 1 or ix[0] in shared or ends(l) in beside_placeholder:
             continue
         got = set()
         for x in l.paths:
